@@ -1,3 +1,231 @@
+import PB.Model.Log
 import PB.Drv.Loop
-/- Driver stub for C20 (model not built yet): every op is rejected. -/
-def main : IO Unit := PB.Drv.lineLoop (fun _ => "bad-op")
+/-
+Driver for C20. A case is the recorded trace of one scenario run of the real logger (see
+harness/cmd/hx-c20): the driver replays the writer goroutine's events through `wstep` (predicting every
+adapter write), every producer call through `pstep`, checks channel FIFO per goroutine on the dequeue
+order, and finally runs `checkRun` on the adapter output. `lv` lines are sequential probes of the level
+filter (`enabled`).
+-/
+namespace PB.Drv.C20
+open PB.Log
+
+structure DS where
+  np : Nat := 0
+  cfgs : List (Nat × Levels) := []
+  items : List (Nat × Item) := []      -- newest first
+  outs : List OutW := []               -- newest first
+  w : Writer := Writer.init
+  expW : List Write := []              -- predicted adapter writes not yet observed
+  last : List (Nat × Nat) := []        -- per goroutine: sequence number of its last dequeued line
+  metaFail : Option String := none
+  lateFrom : Option Nat := none       -- adapter writes made before Shutdown returned, if some came later
+  deriving Inhabited
+
+def nat? (s : String) : Option Nat := s.toNat?
+
+def splitC (s : String) (c : Char) : List String := (s.split (· == c)).map (·.toString) |>.toList
+
+def parsePkgs (s : String) : Option (List (Nat × Nat)) :=
+  if s == "-" then some [] else
+  (splitC s ',').mapM fun kv =>
+    match splitC kv '=' with
+    | [k, v] => do let a ← nat? k; let b ← nat? v; pure (a, b)
+    | _ => none
+
+def parseLevels (g a p : String) : Option Levels := do
+  let glob ← nat? g
+  let act ← nat? a
+  let pk ← parsePkgs p
+  pure { glob := glob, active := act != 0, pkgs := pk }
+
+def parseNatList (s : String) : Option (List Nat) :=
+  if s == "" then some [] else (splitC s ',').mapM nat?
+
+def parseSeg (cfgs : List (Nat × Levels)) (s : String) : Option Seg :=
+  match splitC s '*' with
+  | [k, n] => do
+    let cnt ← nat? n
+    if k == "u" then pure { cfg := none, before := false, n := cnt }
+    else match splitC k ':' with
+      | [c, b] => do
+        let ci ← nat? c
+        let bi ← nat? b
+        let lv ← cfgs.lookup ci
+        pure { cfg := some lv, before := bi != 0, n := cnt }
+      | _ => none
+  | _ => none
+
+def parseKind : String → Option Kind
+  | "p" => some .plain | "t" => some .tracer | "x" => some .any | _ => none
+
+/-- `gid:item:dups` or `gid:item:dups:e1,2,3` -/
+def parseOut (s : String) : Option OutW :=
+  match splitC s ':' with
+  | [g, i, d] => do pure { gid := ← nat? g, item := ← nat? i, dups := ← nat? d, entries := none }
+  | [g, i, d, e] =>
+    if e.startsWith "e" then do
+      let es ← parseNatList (e.drop 1).toString
+      pure { gid := ← nat? g, item := ← nat? i, dups := ← nat? d, entries := some es }
+    else none
+  | _ => none
+
+/-- `<out>` or `<out>*count`: `count` identical adapter writes in a row -/
+def parseOutN (s : String) : Option (List OutW) :=
+  match splitC s '*' with
+  | [o] => (parseOut o).map ([·])
+  | [o, n] => do
+    let k ← nat? n
+    if k = 0 then none else
+    let w ← parseOut o
+    pure (List.replicate k w)
+  | _ => none
+
+/-- line content `msgkey:lvl:site:tr` -/
+def parseLine (m l s t : String) : Option Line := do
+  let tr ← nat? t
+  pure { msg := ← nat? m, lvl := ← nat? l, site := ← nat? s, trace := if tr != 0 then some [] else none }
+
+def setLast (l : List (Nat × Nat)) (g v : Nat) : List (Nat × Nat) :=
+  (g, v) :: l.filter (fun x => x.1 != g)
+
+/-- One writer token. Returns the new state or the reason for rejecting. -/
+def wtoken (d : DS) (tok : String) : Except String DS :=
+  let applyEv (d : DS) (e : WEv) : Except String DS :=
+    if d.expW != [] then .error "write-missing"
+    else match wstep d.w e with
+      | none => .error "not-enabled"
+      | some (w', o) => .ok { d with w := w', expW := o }
+  match splitC tok ':' with
+  | ["token"] => applyEv d .token
+  | ["unset"] => applyEv d .unset
+  | ["force"] => applyEv d .force
+  | ["slot"] => applyEv d .slot
+  | ["shut"] => applyEv d .shut
+  | ["empty"] => applyEv d .empty
+  | ["timer"] => applyEv d .timer
+  | ["ftimeout"] => applyEv d .ftimeout
+  | ["W", m, l, s, t, dp] =>
+    match parseLine m l s t, nat? dp with
+    | some ln, some dups =>
+      match d.expW with
+      | [] => .error "write-unpredicted"
+      | (el, ed) :: rest =>
+        if el == ln && ed == dups then .ok { d with expW := rest } else .error "write-differs"
+    | _, _ => .error "bad-token"
+  | [k, id, m, l, s, t] =>
+    match parseLine m l s t, splitC id '.' with
+    | some ln, [g, q] =>
+      match nat? g, nat? q with
+      | some gi, some qi =>
+        -- channel FIFO per goroutine: its lines leave the buffer in the order it created them
+        -- (sequence number 0: a line logged before Start, replayed by a helper goroutine — unordered)
+        if qi != 0 && (d.last.lookup gi).getD 0 ≥ qi then .error "fifo"
+        else
+          let d := if qi != 0 then { d with last := setLast d.last gi qi } else d
+          if k == "deq" then applyEv d (.deq ln)
+          else if k == "fdeq" then applyEv d (.fdeq ln)
+          else .error "bad-token"
+      | _, _ => .error "bad-token"
+    | _, _ => .error "bad-token"
+  | _ => .error "bad-token"
+
+def wline (d : DS) (toks : List String) : DS × String :=
+  let rec go (d : DS) (k : Nat) : List String → DS × String
+    | [] => (d, "ok")
+    | t :: ts =>
+      match wtoken d t with
+      | .ok d' => go d' (k + 1) ts
+      | .error why => (d, s!"reject {k} {why}")
+  go d 0 toks
+
+/-- One producer call, from the creation of its line to the return of `log()`/`Submit()`. -/
+def pline (toks : List String) : String :=
+  let rec go (ps : PState) (k : Nat) : List String → String
+    | [] => "reject end"
+    | t :: ts =>
+      let ev : Option (Option PEv) :=     -- none: bad token; some none: `ret`
+        match t with
+        | "enq" => some (some .enq) | "full" => some (some .full) | "forced" => some (some .forced)
+        | "enqB" => some (some .enqB) | "won" => some (some (.flag true)) | "tok" => some (some .tok)
+        | "tokFull" => some (some .tokFull) | "ret" => some none | _ => none
+      match ev with
+      | none => s!"reject {k} bad-token"
+      | some none =>
+        -- returning without `won`: SetToIf found the flag already set
+        let ps' := match ps with | .sent => (pstep ps (.flag false)).getD ps | _ => ps
+        if ps' == .idle && ts.isEmpty then "ok" else s!"reject {k} ret"
+      | some (some .tokFull) => s!"reject {k} token-dropped"   -- unreachable by `token_never_dropped`
+      | some (some e) =>
+        match pstep ps e with
+        | none => s!"reject {k} not-enabled"
+        | some ps' => go ps' (k + 1) ts
+  match toks with
+  | "line" :: rest => go (.ready default) 1 rest
+  | _ => "reject 0 no-line"
+
+def expsOf (d : DS) (gid : Nat) : List Item :=
+  (d.items.filter (·.1 == gid)).map (·.2) |>.reverse
+
+def showVerdict : Verdict → String
+  | .pass => "pass"
+  | .fail c g i => s!"fail {c} g{g} i{i}"
+
+def handle (d : DS) (line : String) : DS × String :=
+  match PB.Drv.words line with
+  | "scenario" :: _ => (d, "ok")
+  | ["np", n] => match nat? n with | some k => ({ d with np := k }, "ok") | none => (d, "bad-op")
+  | ["cfg", id, g, a, p] =>
+    match nat? id, parseLevels g a p with
+    | some i, some lv => ({ d with cfgs := (i, lv) :: d.cfgs }, "ok")
+    | _, _ => (d, "bad-op")
+  | "item" :: g :: i :: l :: o :: k :: segs :: rest =>
+    let ents : Option (List Nat) := match rest with
+      | [] => some []
+      | [e] => if e.startsWith "e" then parseNatList (e.drop 1).toString else none
+      | _ => none
+    match nat? g, nat? i, nat? l, nat? o, parseKind k, (splitC segs ',').mapM (parseSeg d.cfgs), ents with
+    | some gi, some ii, some li, some oi, some ki, some ss, some es =>
+      ({ d with items := (gi, { item := ii, lvl := li, org := oi, kind := ki, segs := ss, entries := es }) :: d.items }, "ok")
+    | _, _, _, _, _, _, _ => (d, "bad-op")
+  | "p" :: _ :: _ :: toks => (d, pline toks)
+  | "w" :: toks => wline d toks
+  | "out" :: toks =>
+    match toks.mapM parseOutN with
+    | some os => ({ d with outs := os.flatten.reverse ++ d.outs }, "ok")
+    | none => (d, "bad-op")
+  | "meta" :: kvs =>
+    let bad := kvs.filterMap fun kv =>
+      if kv.startsWith "quiesce=timeout" then some "quiesce-timeout"
+      else if kv == "hang=1" then some "shutdown-hang"
+      else none
+    let late := kvs.any fun kv => kv.startsWith "after_return=" && kv != "after_return=0"
+    let atRet := kvs.findSome? fun kv =>
+      if kv.startsWith "writes_at_return=" then nat? (kv.drop "writes_at_return=".length).toString else none
+    ({ d with metaFail := bad.head?, lateFrom := if late then atRet else none }, "ok")
+  | ["check"] =>
+    if d.expW != [] then (d, "fail write-missing")
+    else match d.metaFail with
+      | some m => (d, s!"fail {m}")
+      | none =>
+        let outs := d.outs.reverse
+        -- writes after Shutdown returned: what had to be written before the return is judged on the
+        -- writes made until then
+        match d.lateFrom with
+        | some n =>
+          if checkRun d.np (expsOf d) (outs.take n) != .pass then (d, "fail write-after-return")
+          else (d, showVerdict (checkRun d.np (expsOf d) outs))
+        | none => (d, showVerdict (checkRun d.np (expsOf d) outs))
+  | ["lv", g, a, p, pk, l] =>
+    match parseLevels g a p, nat? l with
+    | some lv, some li =>
+      let pkg : Option (Option Nat) := if pk == "-" then some none else (nat? pk).map some
+      match pkg with
+      | some pk' => (d, s!"e={if fastcheck lv li && enabled lv pk' li then 1 else 0}")
+      | none => (d, "bad-op")
+    | _, _ => (d, "bad-op")
+  | _ => (d, "bad-op")
+
+end PB.Drv.C20
+
+def main : IO Unit := PB.Drv.runState (default : PB.Drv.C20.DS) PB.Drv.C20.handle
